@@ -3,12 +3,12 @@
    scripted sender.  After the handshake every sequence up to Depth of: deliveries in one, two
    and three frames (continuations omitting or repeating the optional fields, an empty middle
    frame), an aborted delivery, a continuation with a contradictory delivery-id, application
-   recv / accept / accept-all / set_credit / drain.  Credit policy (Auto(n) or Manual), auto-accept
+   recv / accept / accept-all / set_credit / drain, a flow of the sender claiming more credit than it was given.  Credit policy (Auto(n) or Manual), auto-accept
    and the sender's initial delivery-count (0 or just below 2^32) are configuration. *)
 EXTENDS Integers, Sequences, TLC, Json
 CONSTANTS Depth, Credit, AutoAccept, DcShift, Side
 
-Alphabet == {"T1", "T2", "T3", "TAbort", "TContra", "Recv", "Acc", "AccAll", "SetCredit2", "Drain"}
+Alphabet == {"T1", "T2", "T3", "TAbort", "TContra", "Recv", "Acc", "AccAll", "SetCredit2", "Drain", "SFlow"}
 VARIABLES script
 Init == script = <<>>
 Next == Len(script) < Depth /\ \E e \in Alphabet : script' = Append(script, e)
@@ -53,6 +53,8 @@ Body(sc, i, k) ==
     [] e = "AccAll" -> <<[e |-> "ADispose", l |-> "L2", d |-> <<0, 1, 2>>, state |-> "accept", all |-> TRUE]>> \o Body(sc, i + 1, k)
     [] e = "SetCredit2" -> <<[e |-> "ASetCredit", l |-> "L2", n |-> 2]>> \o Body(sc, i + 1, k)
     [] e = "Drain" -> <<[e |-> "ADrain", l |-> "L2"]>> \o Body(sc, i + 1, k)
+    \* the sender states its own view: its delivery-count and far more credit than it was ever given (the receiver's limit is what counts)
+    [] e = "SFlow" -> <<[e |-> "PFrame", perf |-> "flow", ch |-> 3, ech |-> 0, f |-> [nii |-> [seen |-> 0], iw |-> 100, noi |-> k, ow |-> 100, h |-> 6, dc |-> 1000 + k, lc |-> 10, role |-> "s"]]>> \o Body(sc, i + 1, k)
 Suffix == << [e |-> "ARecv", l |-> "L2"], [e |-> "ARecv", l |-> "L2"] >>
 Done == Len(script) = Depth
 Emit == Done => PrintT(<<"SCRIPT", ToJson([side |-> Side, id |-> <<Side, Credit, AutoAccept, DcShift>> \o script,
